@@ -870,3 +870,112 @@ func c07r7(rc *core.RC) {
 		rc.Unknown(key, fd.Pos(), "no newWrappedStringDecoder call found")
 	}
 }
+
+// ---- C07.R8 no byte of the NUL-terminated input is stepped over unread ----
+
+// The decoders find the end of their input by the NUL sentinel, not by a length test, so the only
+// thing that keeps a scan inside the buffer is that every byte is looked at before the cursor moves
+// past it. For every unit increment of a variable that indexes the input (cursor++ on a variable used
+// in buf[cursor] / char(p, cursor)), every flow-graph path to the next increment of the same variable
+// must read the byte at the cursor in between (index it, pass the cursor to a call, switch on it).
+// Two increments in a row step over a byte that may be the terminator; the scan then continues in
+// foreign memory.
+func c07r8(rc *core.RC) {
+	p := rc.P
+	sites := 0
+	for _, fd := range p.Funcs("decoder") {
+		if fd.Body == nil {
+			continue
+		}
+		info := p.Info(fd)
+		fn := p.FuncName(fd)
+		// variables that index the input in this function
+		cursors := map[types.Object]bool{}
+		streamCursor := false
+		note := func(e ast.Expr) {
+			e = core.Unparen(e)
+			if be, ok := e.(*ast.BinaryExpr); ok {
+				e = core.Unparen(be.X)
+			}
+			if id, ok := e.(*ast.Ident); ok {
+				if o := info.Uses[id]; o != nil {
+					if b, isBasic := o.Type().Underlying().(*types.Basic); isBasic && b.Info()&types.IsInteger != 0 {
+						cursors[o] = true
+					}
+				}
+			}
+			if isStreamCursor(info, e) {
+				streamCursor = true
+			}
+		}
+		ast.Inspect(fd.Body, func(m ast.Node) bool {
+			switch x := m.(type) {
+			case *ast.IndexExpr:
+				if tv, ok := info.Types[x.X]; ok {
+					if sl, isSlice := tv.Type.Underlying().(*types.Slice); isSlice {
+						if b, isBasic := sl.Elem().Underlying().(*types.Basic); isBasic && b.Kind() == types.Uint8 {
+							note(x.Index)
+						}
+					}
+				}
+			case *ast.CallExpr:
+				if core.CalleeName(info, x) == "decoder.char" && len(x.Args) == 2 {
+					note(x.Args[1])
+				}
+				if core.CalleeName(info, x) == "decoder.Stream.char" {
+					streamCursor = true
+				}
+			}
+			return true
+		})
+		if len(cursors) == 0 && !streamCursor {
+			continue
+		}
+		var incs []*ast.IncDecStmt
+		ast.Inspect(fd.Body, func(m ast.Node) bool {
+			if _, isLit := m.(*ast.FuncLit); isLit {
+				return false
+			}
+			if st, ok := m.(*ast.IncDecStmt); ok && st.Tok == token.INC {
+				if o := core.ObjOf(info, st.X); o != nil && cursors[o] {
+					incs = append(incs, st)
+				} else if streamCursor && isStreamCursor(info, st.X) {
+					incs = append(incs, st)
+				}
+			}
+			return true
+		})
+		if len(incs) == 0 {
+			continue
+		}
+		rc.Touch(fn)
+		cf := core.BuildCFG(fd.Body, info)
+		for k, st := range incs {
+			sites++
+			key := fmt.Sprintf("%s/advance#%d byte-read-before-next-advance", fn, k+1)
+			blk, idx := cf.BlockOf(st)
+			if blk == nil || !cf.Reachable(blk) {
+				rc.Note(key, st.Pos(), "not in the flow graph (unreachable)")
+				continue
+			}
+			locals := map[types.Object]bool{}
+			init := map[string]int{}
+			if o := core.ObjOf(info, st.X); o != nil && cursors[o] {
+				locals[o] = true
+				init["l:"+o.Name()] = 0
+			} else {
+				init[refillCursorKey] = 0
+			}
+			w := &refillWalk{rc: rc, info: info, cf: cf, locals: locals, fn: fn, visited: map[string]bool{}, argExamines: true}
+			w.run(blk, idx+1, init)
+			if w.bad != token.NoPos {
+				rc.Bad(key, w.bad, "after the advance at line %d %s; if that byte is the NUL terminator the scan leaves the buffer", p.Fset.Position(st.Pos()).Line, w.badMsg)
+			} else {
+				rc.OK(key, st.Pos(), "the byte is read before the cursor advances again")
+			}
+		}
+	}
+	if sites < 150 {
+		rc.Unknown("decoder/advance-sites", token.NoPos, "found %d cursor advances", sites)
+	}
+}
